@@ -25,6 +25,11 @@ pub fn append_register(ch: Option<char>, buf: RegisterContent) {
 	REGISTERS.with_borrow_mut(|regs| if let Some(r) = regs.get_reg_mut(ch) { r.append(buf) })
 }
 
+/// Clear every register. Each unit of work (a file, or a line with `--linewise`) starts from empty registers.
+pub fn reset_registers() {
+	REGISTERS.with_borrow_mut(|regs| *regs = Registers::new())
+}
+
 #[derive(Default,Debug)]
 pub struct Registers {
 	default: Register,
